@@ -3,6 +3,7 @@ package database
 import (
 	"context"
 	"fmt"
+	"reflect"
 	"sync"
 )
 
@@ -248,10 +249,24 @@ func sameID(stored, lookup interface{}) bool {
 	if stored == nil || lookup == nil {
 		return false
 	}
-	if stored == lookup {
+	if valuesEqual(stored, lookup) {
 		return true
 	}
 	return fmt.Sprint(stored) == fmt.Sprint(lookup)
+}
+
+// valuesEqual compares a stored field with a lookup value. Records hold
+// arrays and objects as well as scalars, and == panics when both sides are
+// slices or maps, so those are compared structurally.
+func valuesEqual(a, b interface{}) bool {
+	if a == nil || b == nil {
+		return a == nil && b == nil
+	}
+	ta, tb := reflect.TypeOf(a), reflect.TypeOf(b)
+	if ta.Comparable() && tb.Comparable() {
+		return a == b
+	}
+	return reflect.DeepEqual(a, b)
 }
 
 // Get retrieves a record by ID
@@ -320,7 +335,7 @@ func (m *MockTableHandler) Count(column string, value interface{}) int64 {
 
 	count := int64(0)
 	for _, record := range m.db.data[m.name] {
-		if record[column] == value {
+		if valuesEqual(record[column], value) {
 			count++
 		}
 	}
@@ -334,7 +349,7 @@ func (m *MockTableHandler) CountWhere(column1 string, value1 interface{}, column
 
 	count := int64(0)
 	for _, record := range m.db.data[m.name] {
-		if record[column1] == value1 && record[column2] == value2 {
+		if valuesEqual(record[column1], value1) && valuesEqual(record[column2], value2) {
 			count++
 		}
 	}
@@ -348,7 +363,7 @@ func (m *MockTableHandler) Filter(column string, value interface{}) []interface{
 
 	result := make([]interface{}, 0)
 	for _, record := range m.db.data[m.name] {
-		if record[column] == value {
+		if valuesEqual(record[column], value) {
 			result = append(result, record)
 		}
 	}
